@@ -153,8 +153,9 @@ func genRigCase(r *rng.R) rigIn {
 				if loc == "Header" {
 					q.wire = "X-" + q.wire
 				}
-				if loc == "Query" && !q.ptr && (ty == "string" || ty == "int" || ty == "int64" || ty == "uint8" || ty == "float64" || ty == "float32" || ty == "bool") && r.Chance(1, 4) {
-					q.ty = "[]" + ty
+				if loc == "Query" && !q.ptr && !(firstBody && ty == "Color") && r.Chance(1, 3) {
+					// a repeated query parameter: every element type has its own conversion block per engine
+					q.ty = "[]" + rng.Pick(r, []string{"string", "int", "int64", "uint8", "float64", "float32", "bool", "float64"})
 				}
 				params = append(params, q)
 			}
